@@ -2,6 +2,11 @@ SPECIFICATION Spec
 CONSTANTS
   MaxIds = 5
   MaxOps = 14
+  IdSpace = 12
+  Objs = {1, 2, 3}
+  SkipLive = TRUE
+  NeedBurn = TRUE
+  MustBurn = FALSE
   KeepHist = TRUE
 VIEW view
 CONSTRAINT Bound
